@@ -7,6 +7,10 @@ import runner
 from registry import REGISTRY
 
 
+import re
+NONBENIGN_RE = re.compile(r"\(sover \S+ nil|\(decl \S+ \(name [^)]*\) nil")
+
+
 def doc_end(text):
     lines = text.split("\n")
     return len(lines) - 1, len(lines[-1])
@@ -48,7 +52,7 @@ def run(chk):
     gos, models = A.analyze_both(cases)
     fails, dis = [], []
     stats = {"evaluations": len(cases), "distinct_nontrivial": 0, "model_comparisons": 0, "positions_probed": 0,
-             "texts_with_parse_errors": 0, "unsupported_ast": 0}
+             "texts_with_parse_errors": 0, "unsupported_ast": 0, "trees_monitored": 0}
     for c, o, m in zip(cases, gos, models):
         why = []
         stats["positions_probed"] += len(c["positions"])
@@ -77,6 +81,16 @@ def run(chk):
             fails.append((c, {k: o.get(k) for k in ("diags", "parseErrors", "checkPanic", "symbolsPanic", "parsePanic")}, m, why[:4]))
         if o.get("unsupported"):
             stats["unsupported_ast"] += 1
+        # monitor of the named assumption of the C18 theorems: every tree the real parser hands over
+        # lies in the benign class (Spec/Benign.lean)
+        ast = o.get("ast", "")
+        if ast:
+            stats["trees_monitored"] += 1
+            shapes = [x for x in ("monnil", "callnil", "(sacct nil)", "(dacct nil)") if x in ast]
+            if NONBENIGN_RE.search(ast):
+                shapes.append("overdraft source without address / declaration with a name but no type")
+            if shapes:
+                fails.append((c, {"ast": ast}, m, ["the parser produced a tree outside the benign class the crash-freedom theorems assume: %s" % shapes]))
         if m is not None:
             stats["model_comparisons"] += 1
             d = A.diff_analysis(o, m, compare_hovers=True)
